@@ -87,6 +87,8 @@ def history_model(rng, k, tier, like=None):
     elif ending == "stdout":
         s["cfg"]["verbose"] = rng.choice([1, 2])
         s["faults"] = {"stdout": {"at": rng.randrange(1, 70), "errno": rng.choice(["EPIPE", "ENOSPC"])}}
+    if "interrupt" in (s.get("faults") or {}) and rng.random() < 0.25:
+        s["faults"]["interrupt"]["exc"] = "MemoryError"     # a failing allocation instead of Ctrl-C
     ops.append(s)
     if rng.random() < 0.4:
         # the session keeps using some of the old model's objects afterwards
@@ -133,7 +135,7 @@ def enum_total(variant):
 class C12(Prop):
     id = "C12"
     level = "exploration"
-    RUNS = {"quick": 700, "thorough": 14000}
+    RUNS = {"quick": 1400, "thorough": 14000}
     BUDGET = {"quick": 85, "thorough": 900}
     ORACLES = ("C12",)
     RULE = ("plan = history A1..Ak (k <= 6; template models ended built / solved / failed by a scripted peer, licence or "
@@ -148,7 +150,7 @@ class C12(Prop):
                    "the MOSEK transport is a stand-in written from the documented API")
     COMPONENTS = {"real": ["every line of PEPit", "cvxpy modelling layer", "CLARABEL / SCS in REAL runs"],
                   "stub": ["solver in TAGGED runs", "mosek package (stand-in)", "licence state", "sys.stdout",
-                           "KeyboardInterrupt injected through sys.settrace"]}
+                           "KeyboardInterrupt / MemoryError injected through sys.settrace"]}
 
     def generate(self, rng, tier, idx):
         k = rng.choice([1, 1, 2, 2, 3, 4, 6])
@@ -160,6 +162,8 @@ class C12(Prop):
             at = 1 + rng.randrange(total)
             ops, s = enum_history(variant)
             s["faults"] = {"interrupt": {"at": at}}
+            if rng.random() < 0.25:
+                s["faults"]["interrupt"]["exc"] = "MemoryError"
             hist = ops + [s]
             endings = ["enum:v%d:%d/%d" % (variant, at, total)]
             k = 0
